@@ -97,3 +97,16 @@ package bt
 //@ func bt.NewTx
 //@   fresh result
 //@   ensures[newtx_nonnil] (not (nil? result))
+
+//@ func bt.(*Tx).InputCount
+//@   pure
+//@   ensures[inputcount] (= result (len (. tx Inputs)))
+//@ func bt.(*Tx).OutputCount
+//@   pure
+//@   ensures[outputcount] (= result (len (. tx Outputs)))
+//@ func bt.(*Tx).InputIdx
+//@   pure
+//@   ensures[inputidx] (= result (ite (and (<= 0 i) (< i (len (. tx Inputs)))) (at (. tx Inputs) i) nil))
+//@ func bt.(*Tx).OutputIdx
+//@   pure
+//@   ensures[outputidx] (= result (ite (and (<= 0 i) (< i (len (. tx Outputs)))) (at (. tx Outputs) i) nil))
